@@ -70,3 +70,21 @@ Definition y_hist_ok : list yevent :=
 (* same name, same stat record, different content *)
 Definition y_hist_bad : list yevent :=
   [YOpen [1]; YLoad [97] [10] [5; 5]; YOpen [1]; YLoad [97] [10] [5; 6]].
+
+(* a YAML cache that does not record the digest of a file served from the hot
+   table (the answer carries an empty digest) *)
+Fixpoint y_run_forget (cur : list N) (c : ycache (list N)) (evs : list yevent) : list (option (list N * list N)) :=
+  match evs with
+  | [] => []
+  | ev :: q =>
+      let '(cur', c', o) := y_step (list N) y_parse y_hash cur c ev in
+      let o' := match ev, o with
+                | YLoad name stat _, Some (d, dg) =>
+                    match y_find (list N) name stat (yc_tab (list N) c) with Some _ => Some (d, []) | None => Some (d, dg) end
+                | _, _ => o
+                end in
+      o' :: y_run_forget cur' c' q
+  end.
+(* two sessions; in the second one b is edited (new stat), a is served from the table *)
+Definition y_hist_two : list yevent :=
+  [YOpen [1]; YLoad [97] [10] [5; 5]; YLoad [98] [11] [6]; YOpen [1]; YLoad [97] [10] [5; 5]; YLoad [98] [12] [7]].
